@@ -6,6 +6,8 @@ def run(ctx):
     serial.rule_inert_members(ctx)
     serial.rule_scratch_reset(ctx)
     serial.rule_scratch_conditions(ctx)
+    from . import c06 as _c06
+    _c06.rule_counter_update(ctx)          # R06.9
     from . import c09
     c09.rule_python_snapshot_pickup(ctx)   # R09.7/R09.8: a picked-up snapshot continues bit for bit only if the switch reaches the integrator in use
     c09.rule_exact_finish(ctx)             # R09.11
